@@ -495,7 +495,9 @@ public:
 
     if_constexpr_named(cond1, detail::is_fundamental_or_enum_v<T>)
     {
+      RLBOX_VERIF_INTERLEAVE("cv.val.read");
       auto val = impl().get_raw_value();
+      RLBOX_VERIF_INTERLEAVE("cv.val.verifier");
       return verifier(val);
     }
     else if_constexpr_named(
@@ -527,10 +529,12 @@ public:
       }
       else
       {
+        RLBOX_VERIF_INTERLEAVE("cv.ptr.fetch");
         auto val = impl().get_raw_value();
         if (val == nullptr) {
           return verifier(nullptr);
         } else {
+          RLBOX_VERIF_INTERLEAVE("cv.ptr.read");
           // Important to assign to a local variable (i.e. make a copy)
           // Else, for tainted_volatile, this will allow a
           // time-of-check-time-of-use attack
@@ -540,6 +544,7 @@ public:
           auto val_ref =
             reinterpret_cast<const tainted_volatile<T_Deref, T_Sbx>*>(val);
           *val_copy = val_ref->UNSAFE_unverified();
+          RLBOX_VERIF_INTERLEAVE("cv.ptr.verifier");
           return verifier(std::move(val_copy));
         }
       }
@@ -547,7 +552,9 @@ public:
     else if_constexpr_named(
       cond3, detail::is_one_level_ptr_v<T> && std::is_class_v<T_Deref>)
     {
+      RLBOX_VERIF_INTERLEAVE("cv.struct.read");
       auto val_copy = std::make_unique<tainted<T_Deref, T_Sbx>>(*impl());
+      RLBOX_VERIF_INTERLEAVE("cv.struct.verifier");
       return verifier(std::move(val_copy));
     }
     else if_constexpr_named(cond4, std::is_array_v<T>)
@@ -558,7 +565,9 @@ public:
         "For arrays of other types, apply copy_and_verify on each element "
         "individually --- a[i].copy_and_verify(...)");
 
+      RLBOX_VERIF_INTERLEAVE("cv.arr.read");
       auto copy = impl().get_raw_value();
+      RLBOX_VERIF_INTERLEAVE("cv.arr.verifier");
       return verifier(copy);
     }
     else
@@ -588,6 +597,7 @@ private:
       count != 0,
       "Called copy_and_verify_range/copy_and_verify_string with count 0");
 
+    RLBOX_VERIF_INTERLEAVE("range.fetch");
     auto start = reinterpret_cast<const void*>(impl().get_raw_value());
     if (start == nullptr) {
       return nullptr;
@@ -616,6 +626,7 @@ private:
     auto target = std::make_unique<T_CopyAndVerifyRangeEl[]>(count);
 
     for (size_t i = 0; i < count; i++) {
+      RLBOX_VERIF_INTERLEAVE("range.el");
       target[i] = impl()[i].UNSAFE_unverified();
     }
 
@@ -646,6 +657,7 @@ public:
 
     std::unique_ptr<T_CopyAndVerifyRangeEl[]> target =
       copy_and_verify_range_helper(count);
+    RLBOX_VERIF_INTERLEAVE("range.verifier");
     return verifier(std::move(target));
   }
 
@@ -668,6 +680,7 @@ public:
 
     using T_VerifParam = detail::func_first_arg_t<T_Func>;
 
+    RLBOX_VERIF_INTERLEAVE("str.fetch");
     auto start = impl().get_raw_value();
     if_constexpr_named(
       cond1,
@@ -682,13 +695,16 @@ public:
       // does not have a null and we try to copy all the memory out of the
       // sandbox however, copy_and_verify_range ensures that we never copy
       // memory outsider the range
+      RLBOX_VERIF_INTERLEAVE("str.strlen");
       auto str_len = std::strlen(start) + 1;
+      RLBOX_VERIF_INTERLEAVE("str.measured");
       std::unique_ptr<T_CopyAndVerifyRangeEl[]> target =
         copy_and_verify_range_helper(str_len);
 
       // ensure the string has a trailing null
       target[str_len - 1] = '\0';
 
+      RLBOX_VERIF_INTERLEAVE("str.verifier");
       return verifier(std::move(target));
     }
     else if_constexpr_named(cond2, std::is_same_v<T_VerifParam, std::string>)
@@ -702,7 +718,9 @@ public:
       // does not have a null and we try to copy all the memory out of the
       // sandbox however, copy_and_verify_range ensures that we never copy
       // memory outsider the range
+      RLBOX_VERIF_INTERLEAVE("str.strlen");
       auto str_len = std::strlen(start) + 1;
+      RLBOX_VERIF_INTERLEAVE("str.measured");
 
       const char* checked_start = (const char*)verify_range_helper(str_len);
       if (checked_start == nullptr) {
@@ -710,7 +728,9 @@ public:
         return verifier(param);
       }
 
+      RLBOX_VERIF_INTERLEAVE("str.copy");
       std::string copy(checked_start, str_len - 1);
+      RLBOX_VERIF_INTERLEAVE("str.verifier");
       return verifier(std::move(copy));
     }
     else
